@@ -232,6 +232,7 @@ type webSocket struct {
 	pingC              chan []byte
 	closeC             chan websocket.CloseError // used to gracefully close a websocket connection.
 	forceCloseC        chan error                // used by the readPump to notify a forcefully closed connection to the writePump.
+	doneC              chan struct{}             // closed when the cleanup starts: releases writers blocked on a full outQueue.
 	tlsConnectionState *tls.ConnectionState
 	cfg                WebSocketConfig
 	log                logging.Logger
@@ -253,6 +254,7 @@ func newWebSocket(id string, conn *websocket.Conn, tlsState *tls.ConnectionState
 		pingC:              make(chan []byte, 1),
 		closeC:             make(chan websocket.CloseError, 1),
 		forceCloseC:        make(chan error, 1),
+		doneC:              make(chan struct{}),
 		onClosed:           onClosed,
 		onError:            onError,
 		onMessage:          onMessage,
@@ -296,8 +298,13 @@ func (w *webSocket) WriteManual(messageTyp int, data []byte) error {
 	if w.connection == nil {
 		return fmt.Errorf("cannot write to closed connection %s", w.id)
 	}
-	w.outQueue <- msg
-	return nil
+	select {
+	case w.outQueue <- msg:
+		return nil
+	case <-w.doneC:
+		// The write routine stopped draining the queue: don't block (while holding the lock cleanup needs)
+		return fmt.Errorf("cannot write to closed connection %s", w.id)
+	}
 }
 
 func (w *webSocket) Close(closeError websocket.CloseError) error {
@@ -306,8 +313,12 @@ func (w *webSocket) Close(closeError websocket.CloseError) error {
 	if w.connection == nil {
 		return fmt.Errorf("cannot close already closed connection %s", w.id)
 	}
-	w.closeC <- closeError
-	return nil
+	select {
+	case w.closeC <- closeError:
+		return nil
+	case <-w.doneC:
+		return fmt.Errorf("cannot close already closed connection %s", w.id)
+	}
 }
 
 func (w *webSocket) updateConfig(cfg WebSocketConfig) {
@@ -372,6 +383,8 @@ func (w *webSocket) onPong(appData string) error {
 }
 
 func (w *webSocket) cleanup(err error) {
+	// Release writers blocked on the output queue: they hold the read lock
+	close(w.doneC)
 	w.mutex.Lock()
 	// Properly close the connection
 	if e := w.connection.Close(); e != nil {
